@@ -210,6 +210,80 @@ def gebv_exact(pop):
     return [[canon.enc(sum(Fraction(z) * u[m][j] for m, z in enumerate(row)) + b[j]) for j in range(len(b))] for row in Z]
 
 
+# Evaluation configuration of a factory-built problem.  A factory takes the same declaration (weights,
+# transformations, their keyword arguments, constraint counts) as the constructor and must hand it on: when a case
+# has an "evalcfg", `std_kwargs` adds that declaration to the factory call and `_latent` also calls `evalfn` and
+# records the row, which `judge` checks against "weights x declared transformations of (x, latentfn(x))".
+_CFG = [None]          # the length-agnostic declaration of the running case
+_REG = []              # [(effective declaration, logs, spy functions)] one per std_kwargs call
+_ROWS = []             # [(effective declaration, decision, evalfn row)]
+
+
+def gen_evalcfg(rng, distinct=False):
+    """declaration whose lengths are resolved at run time from the latent length: weight i = a + b*i.
+    `distinct`: every channel gets a transformation WITH keyword arguments, the three sets of names / values and the
+    three weight vectors pairwise different (a mix-up of any two entries of the declaration then shows)"""
+    if distinct:
+        ts = rng.choice([("dot", "decn_sum_eq", "penalty"), ("affine", "penalty", "decn_sum_eq"),
+                         ("penalty", "dot", "decn_sum_eq"), ("affine", "decn_sum_eq", "dot"),
+                         ("dot", "penalty", "decn_sum_eq")])
+        wa = rng.sample([-3, -2, 2, 3, 5, -5, 7], 3)
+        ps = rng.sample([-7, -5, -3, 3, 5, 7, 9], 3)
+        qs = rng.sample([1, 2, 3, 4, 5], 3)
+        return {role: {"t": t, "wt": {"a": canon.enc(Fraction(a, 2)), "b": canon.enc(Fraction(rng.choice([1, 2, 3]), 2))},
+                       "p": canon.enc(Fraction(p_, 2)), "q": canon.enc(Fraction(q_)), "form": "array"}
+                for role, t, a, p_, q_ in zip(("obj", "ineqcv", "eqcv"), ts, wa, ps, qs)}
+    def wt():
+        return {"a": canon.enc(Fraction(rng.choice([-3, -2, 2, 3, 5, -5, 7]), rng.choice([1, 2]))),
+                "b": canon.enc(Fraction(rng.choice([-1, 1, 2, 3]), 2))}
+    cfg = {}
+    for role in ("obj", "ineqcv", "eqcv"):
+        if role == "obj":
+            t = rng.choice(["identity", "identity", "sum", "dot", "penalty", "affine"])
+        else:
+            t = rng.choice(["empty", "default", "sum", "dot", "decn_sum_eq", "decn_sum_eq_default", "penalty", "identity"])
+        cfg[role] = {"t": t, "wt": wt(), "p": canon.enc(Fraction(rng.randint(-8, 8), 2)),
+                     "q": canon.enc(Fraction(rng.randint(1, 5))), "form": rng.choice(["array", "array", "array", "scalar", "none"])}
+    return cfg
+
+
+def materialise(cfg, nl):
+    """the evalfn-style declaration (as in an "evalfn" case of c05.py) for a latent vector of length nl"""
+    out = {"wt_form": {}}
+    for role in ("obj", "ineqcv", "eqcv"):
+        c = cfg[role]
+        t = c["t"]
+        a, b = Fraction(c["wt"]["a"]), Fraction(c["wt"]["b"])
+        if t in ("identity", "penalty", "affine"):
+            ln = nl
+        elif t in ("empty", "default"):
+            ln = 0 if role != "obj" else nl
+        else:
+            ln = 1
+        if t == "dot":
+            tr = {"t": "dot", "w": [canon.enc(Fraction(c["p"]) + Fraction(c["q"]) * i) for i in range(nl)]}
+        elif t == "penalty":
+            tr = {"t": "penalty", "thr": c["p"]}
+        elif t == "affine":
+            tr = {"t": "affine", "m": c["q"], "c": c["p"]}
+        elif t == "decn_sum_eq":
+            tr = {"t": "decn_sum_eq", "target": canon.enc(abs(Fraction(c["p"])))}
+        elif t == "decn_sum_eq_default":
+            tr = {"t": "decn_sum_eq", "target": 1, "default_kw": True}
+        else:
+            tr = {"t": t}
+        out[role + "_trans"] = tr
+        wts = [canon.enc(a + b * i) for i in range(ln)]
+        if c["form"] == "scalar" and ln > 0:
+            wts = [wts[0]] * ln
+            out["wt_form"][role] = "scalar"
+        elif c["form"] == "none":
+            wts = [1] * ln
+            out["wt_form"][role] = "none"
+        out[role + "_wt"] = wts
+    return out
+
+
 def std_kwargs(enc, n, k, nobj):
     if enc == "subset":
         d = dict(ndecn=k, decn_space=numpy.arange(n), decn_space_lower=None, decn_space_upper=None)
@@ -220,6 +294,27 @@ def std_kwargs(enc, n, k, nobj):
     else:
         d = dict(ndecn=n, decn_space=numpy.array([[0] * n, [1] * n]), decn_space_lower=0, decn_space_upper=1)
     d["nobj"] = nobj
+    if _CFG[0] is not None:
+        c05 = _c05()
+        eff = materialise(_CFG[0], int(nobj))
+        logs = {r: [] for r in ("obj", "ineqcv", "eqcv")}
+        fns = {}
+        for r in ("obj", "ineqcv", "eqcv"):
+            fn, kw = c05.make_trans(eff[r + "_trans"], logs[r])
+            fns[r] = fn
+            d[r + "_trans"] = fn
+            d[r + "_trans_kwargs"] = kw if kw else None
+            form = eff["wt_form"].get(r)
+            if form == "scalar":
+                d[r + "_wt"] = _f(eff[r + "_wt"][0])
+            elif form == "none":
+                d[r + "_wt"] = None
+            else:
+                d[r + "_wt"] = numpy.array([_f(v) for v in eff[r + "_wt"]], dtype=float)
+        d["nobj"] = len(eff["obj_wt"])
+        d["nineqcv"] = len(eff["ineqcv_wt"])
+        d["neqcv"] = len(eff["eqcv_wt"])
+        _REG.append((eff, logs, fns))
     return d
 
 
@@ -267,19 +362,26 @@ COMBOS = [("bvmat", "EBV"), ("bvmat", "GEBV"), ("family_bvmat", "FAMILY"), ("l1_
           ("embvmat_real", "EMBVMAT"), ("ohvmat_direct", "OHV")]
 
 
-def gen_case(rng, factory=None, crit=None):
+def gen_case(rng, factory=None, crit=None, enc=None, history=False):
+    """`enc`: the decision encoding wanted (every concrete class has its own copy of each factory method)"""
+    c05 = _c05()
+    if enc is not None and (crit not in c05.CRITS or enc not in c05.CRITS[crit]["classes"]):
+        enc = None
     case = _gen_case(rng, factory)
-    if crit is not None and case["crit"] != crit:
-        for _ in range(50):
+    if (crit is not None and case["crit"] != crit) or (enc is not None and case["enc"] != enc):
+        for _ in range(80):
             case = _gen_case(rng, factory)
-            if case["crit"] == crit:
+            if case["crit"] == crit and (enc is None or case["enc"] == enc):
                 break
-    if case["factory"] in HISTORY_FACTORIES and rng.random() < 0.3:
+    if case["factory"] not in ("wgebvmat", "embvmat", "embvmat_real", "ohvmat_direct") and \
+            (enc is not None or rng.random() < 0.75):
+        case["evalcfg"] = gen_evalcfg(rng, distinct=(enc is not None or rng.random() < 0.5))
+    if case["factory"] in HISTORY_FACTORIES and (history or rng.random() < 0.3):
         if "pop" in case and "taxa" not in case["pop"]:
             # distinct names in arbitrary order, so that sort_taxa() / group_taxa() really move rows
             n = len(case["pop"]["geno"][0])
             case["pop"]["taxa"] = rng.sample(range(100), n)
-        case["history"] = gen_history(rng, case)
+        case["history"] = gen_history(rng, case, history if isinstance(history, str) else None)
     return case
 
 
@@ -341,7 +443,7 @@ def _gen_case(rng, factory=None):
             case["layout"] = rng.choice(["F", "strided", "neg"])
     elif fac in ("wgebv_gmat", "gebv_gmat", "mogs_gmat", "cmat", "l2_gmat", "uc", "ohv", "opv", "gb", "embv", "wgebvmat",
                  "embvmat", "embvmat_real"):
-        pop = gen_pop(rng, nphase=(4 if fac in ("ohv", "opv", "gb", "mogs_gmat", "gebv_gmat") and rng.random() < 0.2 else 2))
+        pop = gen_pop(rng, nphase=(4 if fac in ("ohv", "opv", "gb", "mogs_gmat", "gebv_gmat") and rng.random() < 0.4 else 2))
         n = len(pop["geno"][0])
         case["pop"] = pop
         if fac == "wgebvmat":
@@ -405,8 +507,10 @@ def _gen_case(rng, factory=None):
                     [Fraction(1, 4), Fraction(1, 4), Fraction(1, 2)]
 
             def tensor(depth):
-                if depth == 0:       # asymmetric variance tensor: perfect squares / 16, one per trait
-                    return [canon.enc(Fraction(rng.randint(0, 9) ** 2, 16)) for _ in range(t)]
+                if depth == 0:       # asymmetric variance tensor: perfect squares / 16, one per trait; now and then a
+                    # vanishing variance that rounding left below zero (-2^-60): it counts as 0 (repair dbcebcc2)
+                    return [canon.enc(Fraction(-1, 2 ** 60) if rng.random() < 0.05 else Fraction(rng.randint(0, 9) ** 2, 16))
+                            for _ in range(t)]
                 return [tensor(depth - 1) for _ in range(n)]
             case.update(crit="UC", enc=rng.choice(encs), unique_parents=uniq, via_xmap=rng.random() < 0.4,
                         upper_percentile=canon.enc(rng.choice([Fraction(1, 10), Fraction(1, 4), Fraction(1, 2)])),
@@ -552,7 +656,20 @@ def corpus():
                                                          [[1, 0, 0, 1], [1, 0, 1, 1], [0, 1, 1, 1]]]})):
         out.append({"kind": "factory", "factory": "cmat", "crit": crit, "enc": "subset", "cmatfcty": "molecular",
                     "unscale": True, "pop": hp, "decn": [0, 2], "history": h})
-    return out
+    # regression dbcebcc2: a vanishing progeny variance that rounding left below zero (-2^-60) counts as 0 -- before the
+    # repair numpy.sqrt made the usefulness criterion of that cross (and every objective computed from it) NaN
+    import random as _random
+    _rng = _random.Random(20260930)
+    for _ in range(200):
+        c = _gen_case(_rng, "uc")
+        if c.get("design") == "stub2":
+            break
+    def _neg(cell, depth):
+        return [canon.enc(Fraction(-1, 2 ** 60))] * len(cell) if depth == 0 else [_neg(x, depth - 1) for x in cell]
+    c["vmat"] = [[(_neg(c["vmat"][a][b], 0) if (a + b) % 2 == 0 else c["vmat"][a][b]) for b in range(len(c["vmat"][a]))]
+                 for a in range(len(c["vmat"]))]
+    out_extra = [c]
+    return out + out_extra
 
 
 # --------------------------------------------------------------------------------------------
@@ -587,20 +704,36 @@ def _tofloat(a):
 
 def _latent(p, enc, decn):
     c05 = _c05()
-    return _enc(p.latentfn(c05.decision(enc, decn)))
+    lat = _enc(p.latentfn(c05.decision(enc, decn)))
+    if _CFG[0] is not None and _REG:
+        # the declaration this problem was built with: the registered one whose spy functions it holds
+        # (the latest one when a factory lost all three)
+        reg = _REG[-1]
+        for cand in _REG:
+            if any(getattr(p, r + "_trans", None) is cand[2][r] and cand[2][r] is not None for r in ("obj", "ineqcv", "eqcv")):
+                reg = cand
+        eff, logs, _ = reg
+        for r in logs:
+            logs[r].clear()
+        x = c05.decision(enc, decn)
+        o, g, h = p.evalfn(x)
+        _ROWS.append((eff, decn, {"latent": lat, "obj": _enc(o), "ineqcv": _enc(g), "eqcv": _enc(h),
+                                  "calls": {r: list(logs[r]) for r in logs}}))
+    return lat
 
 
 HISTORY_FACTORIES = ("bvmat", "family_bvmat", "wgebv_gmat", "gebv_gmat", "mogs_gmat", "cmat", "l2_gmat", "uc", "ohv", "opv",
                      "gb", "wgebvmat")
 
 
-def gen_history(rng, case):
-    """a history step for a factory case: the population objects are mutated in place between two factory calls"""
+def gen_history(rng, case, want=None):
+    """a history step for a factory case: the population objects are mutated in place between two factory calls.
+    `want`: "reorder" | "assign_mat" (otherwise drawn)"""
     fac = case["factory"]
     if fac in ("bvmat", "family_bvmat"):
         n = len(case["bv"]["mat"])
         t = len(case["bv"]["mat"][0])
-        if rng.random() < 0.7 and n > 1:
+        if (want == "reorder" or (want is None and rng.random() < 0.7)) and n > 1:
             perm = list(range(n))
             while perm == list(range(n)):
                 rng.shuffle(perm)
@@ -610,6 +743,10 @@ def gen_history(rng, case):
     pop = case["pop"]
     n = len(pop["geno"][0])
     r = rng.random()
+    if want == "reorder":
+        r = 0.0
+    elif want == "assign_mat":
+        r = 0.8
     if r < 0.45 and n > 1:
         perm = list(range(n))
         while perm == list(range(n)):
@@ -628,6 +765,21 @@ def gen_history(rng, case):
 
 
 def run(case):
+    _CFG[0] = case.get("evalcfg")
+    del _REG[:]
+    del _ROWS[:]
+    try:
+        obs = _run_hist(case)
+        if _CFG[0] is not None and isinstance(obs, dict):
+            obs["evalrows"] = [{"cfg": eff, "x": x, "row": row} for eff, x, row in _ROWS]
+        return obs
+    finally:
+        _CFG[0] = None
+        del _REG[:]
+        del _ROWS[:]
+
+
+def _run_hist(case):
     """`history`: build once (primes whatever the code may remember about these objects), mutate the population
     objects in place, build again from the same objects; the second problem is the one that is judged"""
     if "history" not in case:
@@ -642,6 +794,8 @@ def run(case):
     if "skipped" in obs0:
         return obs0
     apply_history(case["history"], pool)
+    del _REG[:]
+    del _ROWS[:]
     obs = _run(effective(case), pool)
     return obs
 
@@ -764,7 +918,7 @@ def _run(case, pool):
             numpy.array([[_f(v) for v in r] for r in case["mkrwt"]])
         target = (lambda ua: (ua > 0.0).astype(float)) if case["target"] == "sign_u" else \
             numpy.array([[_f(v) for v in r] for r in case["tfreq"]])
-        nobj = 2 * t
+        nobj = 2 * t if crit == "MOGS" else t
         p = cls.from_gmat_gpmod(gmat=gmat, weight=weight, target=target, gpmod=gpmod, **std_kwargs(enc, n, k, nobj))
         obs.update(geno=canon.enc(numpy.asarray(p.geno).astype(int)), ploidy=int(p.ploidy), mkrwt=_enc(p.mkrwt),
                    tfreq=_enc(p.tfreq), u=_enc(u))
@@ -1370,12 +1524,12 @@ def judge(case, obs, answers):
             for j, v in enumerate(row):
                 if case.get("design") == "real3":
                     var = Fraction(obs["pvar"][ci][j])
-                    sd = Fraction(float(var) ** 0.5)
+                    sd = Fraction(float(max(var, 0)) ** 0.5)        # a rounding residue below zero is a zero variance
                 else:
                     cell = case["vmat"]
                     for a in cc:
                         cell = cell[a]
-                    var = Fraction(cell[j])
+                    var = max(Fraction(cell[j]), Fraction(0))
                     sd = Fraction(int(round((var * 16) ** 0.5)), 4)
                 want = sum(Fraction(e) * Fraction(bv[a][j]) for e, a in zip(obs["epgc"], cc)) + inten * sd
                 if isinstance(canon.dec(v), str) or not canon.close(canon.dec(v), want, 1e-9, 1e-12):
@@ -1545,6 +1699,12 @@ def judge(case, obs, answers):
             bad_spec.append("taxa labels of the wGEBV matrix are not the population's, in order")
     else:
         raise ValueError(fac)
+
+    # the declaration handed to the factory is the declaration of the problem it returns
+    for er in obs.get("evalrows", []):
+        if _fin(er["row"]["latent"]):
+            c05.PROP._check_row(er["cfg"], [canon.enc(Fraction(v)) for v in er["x"]], er["row"], bad_spec,
+                                "evalfn of the factory-built problem: ")
 
     return {"corr": not bad_corr, "spec": not bad_spec, "nontrivial": True,
             "detail": f"factory[{fac}/{crit}/{enc}] " + ("; ".join(bad_spec + bad_corr)[:1500] if (bad_spec or bad_corr) else "ok")}
